@@ -197,6 +197,17 @@ def finishClass (s : RegState) (cid : Nat) (normDef : Items)
     let classes := s2.classes.modify cid fun ci => { ci with refUnit := some uid }
     ({ s2 with classes, clsMap := s2.clsMap ++ [(normDef, cid)] }, .ok cid)
 
+/-- the class object exists (`s1`); create its reference unit (if it has a
+symbol) and enter the class into the registry; a failure of the reference unit
+leaves the state before the statement (`s`) -/
+def classSuccess (s s1 : RegState) (cid : Nat) (normDef : Items) (sym : Option String)
+    (refUnitDef : Option Items) : RegState × Except DeclErr Nat :=
+  match sym with
+  | some sy =>
+    if sy.isEmpty then ({ s1 with clsMap := s1.clsMap ++ [(normDef, cid)] }, .ok cid)
+    else finishClass s cid normDef (s1.makeUnit cid sy refUnitDef true)
+  | none => ({ s1 with clsMap := s1.clsMap ++ [(normDef, cid)] }, .ok cid)
+
 /-- arguments of a class statement -/
 structure ClassDecl where
   name : String
@@ -261,16 +272,7 @@ def RegState.declClass (s : RegState) (d : ClassDecl) : RegState × Except DeclE
     let ci : ClassInfo :=
       { name := d.name, defn := defineAs, normDef, refUnit := none,
         quantum := d.quantum, units := [], isMoney := d.isMoney }
-    let s1 : RegState := { s with classes := s.classes ++ [ci] }
-    match sym with
-    | some sy =>
-      if sy.isEmpty then
-        ({ s1 with clsMap := s1.clsMap ++ [(normDef, cid)] }, .ok cid)
-      else
-        -- NB the unit is created against the state that already has the class
-        -- (its `refUnit` still unset, so the new unit's own scale lookup is unaffected)
-        finishClass s cid normDef (s1.makeUnit cid sy refUnitDef true)
-    | none => ({ s1 with clsMap := s1.clsMap ++ [(normDef, cid)] }, .ok cid)
+    classSuccess s { s with classes := s.classes ++ [ci] } cid normDef sym refUnitDef
 
 /-- what `define_as` of `new_unit` can be -/
 inductive UnitDefArg where
